@@ -2012,7 +2012,10 @@ class CParser:
         if tok.type in _INT_CONST:
             u_count = 0
             l_count = 0
-            for ch in tok.value[-3:]:
+            # A multi-character constant such as 'ul' has no suffix: its
+            # letters are characters, and its type is int.
+            suffix = "" if tok.type == "INT_CONST_CHAR" else tok.value[-3:]
+            for ch in suffix:
                 if ch in ("l", "L"):
                     l_count += 1
                 elif ch in ("u", "U"):
